@@ -37,7 +37,12 @@ func normalizeTaxIdentity(tID *tax.Identity) {
 	}
 	tax.NormalizeIdentity(tID)
 	// CH has some strange suffixes, remove them.
-	tID.Code = cbc.Code(taxCodeSuffixes.ReplaceAllString(tID.Code.String(), ""))
+	code := tID.Code.String()
+	for taxCodeSuffixes.MatchString(code) {
+		// more than once if the suffix was typed more than once, or in two languages
+		code = taxCodeSuffixes.ReplaceAllString(code, "")
+	}
+	tID.Code = cbc.Code(code)
 }
 
 // validateTaxIdentity checks to ensure the NIT code looks okay.
